@@ -57,6 +57,15 @@ def run(chk, repo):
     r8_signed_div(chk, repo, d)
     r9_width(chk, repo, d)
     r10_contains(chk, repo, d)
+    chk.doc("R01.11", "the lowering of binary and unary operators is the one "
+                      "analysed here")
+    for base, meths in ((E + "Binary", ["calculate"]),
+                        (E + "Unary", ["calculate"])):
+        override_rule(chk, repo, "R01.11", base, meths,
+                      "the width, sign and operand rules established for "
+                      "the operator lowering (R01.2-R01.9) describe "
+                      "Binary.calculate / Unary.calculate; an operator "
+                      "class with a lowering of its own is outside them")
 
 
 # ------------------------------------------------------------------ R01.1
@@ -911,20 +920,47 @@ def r7_constant(chk, repo, d):
            cal, "value = int(self.value)")
     store_immediate(chk, repo, d)
     asm = repo.func(E + "EBPF.assemble")
-    hits = find("pack('<BBHI', $i.opcode.value, $i.dst | $i.src << 4, "
-                "$i.off % 65536, $i.imm % 4294967296)", asm)
-    ok = len(hits) == 1 and isinstance(hits[0][1]["i"], ast.Name)
-    if ok:
-        # $i runs over self.opcodes (comprehension or loop)
-        var = hits[0][1]["i"].id
-        its = [g.iter for g in ast.walk(asm) if isinstance(
-            g, ast.comprehension) and unparse(g.target) == var]
-        its += [g.iter for g in ast.walk(asm) if isinstance(g, ast.For)
-                and unparse(g.target) == var]
-        ok = len(its) == 1 and match("self.opcodes", its[0]) is not None
+    # by abstract execution on instruction lists (negative offsets and
+    # immediates, immediates of 2^31 and more, every register pair), against
+    # the ISA's layout: opcode u8, dst | src << 4, offset s16, immediate s32
+    import struct as _struct
+    ec = repo.cls(E + "EBPF")
+    lists = [[], [(0x95, 0, 0, 0, 0)],
+             [(0xb7, 3, 0, 0, -1), (0x05, 0, 0, -3, 0),
+              (0x18, 9, 10, 0, 0x80000000), (0x7b, 10, 1, -8, 0x7fffffff),
+              (0x63, 2, 15, 0x7fff, -2147483648), (0xdb, 15, 15, -32768, 5)]]
+    lists.append([(0x07, d_, s_, d_ - s_, d_ * 1000 - 5000)
+                  for d_ in range(11) for s_ in range(0, 11, 5)])
+    bad = []
+    for lst in lists:
+        insns = [Obj(None, {"opcode": Obj(None, {"value": o}), "dst": d_,
+                            "src": s_, "off": off, "imm": imm})
+                 for o, d_, s_, off, imm in lst]
+        me = Obj(ec, {"opcodes": insns})
+        try:
+            # (the program was generated before: sub(EBPF, self).program()
+            # is a stand-in that adds nothing)
+            got = Evaluator(repo, asm._module, ec, funcs={
+                "sub": ("hook", lambda *a: Obj(None, {"program": (
+                    "hook", lambda *a_: None)}))}).call_function(
+                asm, [me], cls=ec)
+        except (Unknown, Raised) as e:
+            raise AnalysisError(f"{E}EBPF.assemble: cannot be evaluated: "
+                                f"{e}")
+        want = b"".join(_struct.pack(
+            "<BBhi", o, d_ | s_ << 4, off, imm if imm < 1 << 31
+            else imm - (1 << 32)) for o, d_, s_, off, imm in lst)
+        if not isinstance(got, (bytes, bytearray)) or bytes(got) != want:
+            k = next((i for i in range(0, len(want), 8) if bytes(
+                got or b"")[i:i + 8] != want[i:i + 8]), 0) // 8
+            bad.append(f"{len(lst)} instructions: instruction {k} "
+                       f"{lst[k] if lst else ''} is encoded as "
+                       f"{bytes(got or b'')[8 * k:8 * k + 8].hex()}, the "
+                       f"ISA says {want[8 * k:8 * k + 8].hex()}")
     chk.ob("R01.7", E + "EBPF.assemble", "instruction = <BBHI opcode, "
-           "dst|src<<4, off mod 2^16, imm mod 2^32", ok, asm,
-           "8 bytes little endian per the ISA")
+           "dst|src<<4, off mod 2^16, imm mod 2^32", not bad, asm,
+           "; ".join(bad[:2]) or "8 bytes little endian per the ISA (4 "
+           "instruction lists by abstract execution)")
 
 
 def store_immediate(chk, repo, d):
